@@ -10,7 +10,7 @@ import argparse, json, os, re, subprocess, sys, glob, shutil, time
 from concurrent.futures import ThreadPoolExecutor
 VERIF = os.path.dirname(os.path.dirname(os.path.abspath(__file__)))
 
-def run_one(mid, props, tier, jobs):
+def run_one(mid, props, tier, jobs, only=None):
     sd = os.path.join(VERIF, "seeded", mid)
     wt = "/tmp/mutwt-%s" % mid
     subprocess.run(["git", "-C", "/repo", "worktree", "remove", "--force", wt], capture_output=True)
@@ -24,8 +24,11 @@ def run_one(mid, props, tier, jobs):
             env = dict(os.environ, VERIF_REPO=wt, VERIF_EVIDENCE_DIR="/var/tmp/mut-ev/%s" % mid,
                        VERIF_REPLAY_DIR="/var/tmp/mut-replay/%s" % mid, VERIF_JOBS=str(jobs))
             t0 = time.time()
-            p = subprocess.run([os.path.join(VERIF, "bin", "check"), prop, "--tier", tier, "--failfast"],
-                               capture_output=True, text=True, env=env)
+            cmd = [os.path.join(VERIF, "bin", "check"), prop, "--tier", tier, "--failfast"]
+            if only:
+                # restricted to the obligations named (a subset of the tier): used to re-confirm a catch cheaply
+                cmd += ["--only", only]
+            p = subprocess.run(cmd, capture_output=True, text=True, env=env)
             log = p.stdout + p.stderr
             os.makedirs("/var/tmp/logs/mut", exist_ok=True)
             open("/var/tmp/logs/mut/%s-%s.log" % (mid, prop), "w").write(log)
@@ -45,6 +48,7 @@ def main():
     ap.add_argument("--tier", default="quick")
     ap.add_argument("--parallel", type=int, default=2)
     ap.add_argument("--jobs", type=int, default=8)
+    ap.add_argument("--only")
     a = ap.parse_args()
     ids = a.ids or sorted(os.path.basename(d) for d in glob.glob(os.path.join(VERIF, "seeded", "*-*")))
     resf = os.path.join(VERIF, "seeded", "RESULTS.json")
@@ -52,8 +56,12 @@ def main():
     def work(mid):
         meta = json.load(open(os.path.join(VERIF, "seeded", mid, "meta.json")))
         props = a.props.split(",") if a.props else [meta["property"]]
-        r = run_one(mid, props, a.tier, a.jobs)
-        print(mid, json.dumps(r)[:400], flush=True)
+        r = run_one(mid, props, a.tier, a.jobs, a.only)
+        if a.only:
+            for v in r.values():
+                if isinstance(v, dict):
+                    v["restricted_to"] = a.only
+        print(mid, json.dumps(r)[:4000], flush=True)
         return mid, r
     with ThreadPoolExecutor(a.parallel) as ex:
         for mid, r in ex.map(work, ids):
